@@ -263,8 +263,8 @@ def encHb (h : Auto.Heartbeat) : String :=
 
 def decArrivals (ch : Nat) (h : String) : Option (List Auto.Arrival) :=
   if h == "-" then some [] else
-  (((h.splitOn ",").foldlM (fun (acc : Nat × List Auto.Arrival) tok =>
-    if tok == "P31" then some (acc.1 + 31000000000, acc.2) else
+  (((h.splitOn ",").foldlM (fun (acc : Nat × List Auto.Arrival) (tok : String) =>
+    if tok.startsWith "P" then (tok.drop 1).toString.toNat?.map (fun n => (acc.1 + n * 1000000000, acc.2)) else
     match tok.splitOn "." with
     | [sy, co, kind] => do
       let s ← sy.toNat?
